@@ -360,6 +360,13 @@ func (d *decoded) queryStructural(q *querier) {
 				q.at("Polygon.Loop.Vertex")
 				l.Vertex(j)
 			}
+			if i < 6 {
+				q.shape(l)
+				q.at("Polygon.Loop.IsHole")
+				l.IsHole()
+				q.at("Polygon.Loop.Validate")
+				l.Validate()
+			}
 			q.at("Polygon.Parent")
 			p.Parent(i)
 			q.at("Polygon.LastDescendant")
@@ -422,5 +429,13 @@ func (d *decoded) queryRegion(q *querier) {
 		}
 		pts, cells := extraProbes(vs)
 		q.region(d.polygon, pts, cells)
+		// the loops of the polygon are values the decoder returned too (Loop(i),
+		// Loops()): each is a Region of its own
+		for i, l := range d.polygon.Loops() {
+			if l == nil || i >= 6 {
+				break
+			}
+			q.region(l, pts, cells)
+		}
 	}
 }
